@@ -38,6 +38,9 @@ def _child_body(world, index, tier, seed, replay, want_decoded):
     ch = Chooser(seed=run_seed) if replay is None else Chooser(replay=replay)
     gc.disable()
     res = world.run(ch, index, tier)
+    from . import simfs
+    if simfs.FS is not None and simfs.FS.hook_errors:
+        res["harness_error"] = "exception inside a simulator callback:\n" + simfs.FS.hook_errors[0]
     res["index"] = index
     res["run_seed"] = run_seed
     res["n_choices"] = len(ch.trace)
@@ -230,7 +233,7 @@ def digest_subprocess(prop, tier, seed, indices, hashseed):
     env["PYTHONHASHSEED"] = str(hashseed)
     env["DST_NO_REEXEC"] = "1"
     env["PYTHONDONTWRITEBYTECODE"] = "1"
-    cmd = [sys.executable, "-m", "dst", prop, "--tier", tier, "--seed", str(seed), "--digests",
+    cmd = [sys.executable, "-m", "dst", prop, "--tier", tier, "--seed", str(seed), "--jobs", "4", "--digests",
            ",".join(str(i) for i in indices)]
     return subprocess.Popen(cmd, cwd=VERIF, env=env, stdout=subprocess.PIPE, stderr=subprocess.DEVNULL)
 
@@ -251,7 +254,7 @@ def check(world, tier, seed, jobs=None, runs=None, replay_path=None, digests=Non
     per_run_timeout = plan.get("per_run_timeout", 120.0)
 
     if digests is not None:           # helper mode for the determinism self-test
-        res = run_batch(world, digests, tier, seed, min(jobs, 4), 600, per_run_timeout)
+        res = run_batch(world, digests, tier, seed, jobs, 1800, per_run_timeout)
         print(json.dumps({str(r.get("index")): r.get("digest") for r in res}))
         return 0
 
